@@ -344,6 +344,79 @@ func C03(r *vf.Run) {
 			r.CellN("after-idiom:"+fu.Name, n)
 		})
 	}
+	if r.Phase("operands-naming-labels") {
+		// numeric operands that happen to be the address of a label defined earlier (callers write
+		// JSR_abs(uint16(addr)) by hand), with the listing on or off and a second SetBase in between:
+		// the method still appends its own encoding, and with no label-taking method called Finalize
+		// leaves every byte alone
+		r.Parallel(runtime.NumCPU(), len(methods), func(wi, idx int) {
+			m := methods[idx]
+			if m.size() < 3 || m.Arg == aLabel8 || m.Arg == aLabel16 {
+				return
+			}
+			g := r.Rand("lbladdr").Fork(uint64(idx))
+			var n int64
+			for variant := 0; variant < 32; variant++ {
+				listing, rebase, labelAfterRebase, twice := variant&1 != 0, variant&2 != 0, variant&4 != 0, variant&8 != 0
+				for flags := byte(0); flags < 0x40; flags += 0x10 {
+					if !guardOKFlags(m.Guard, flags) {
+						continue
+					}
+					e := asm.NewEmitter(make([]byte, 256), listing)
+					bank := uint32(g.Intn(256)) << 16
+					pan := vf.Try(func() {
+						e.SetBase(bank | uint32(0x8000+g.Intn(0x4000)))
+						e.AssumeSEP(asm.Flags(flags))
+						e.EmitBytes(g.Bytes(1 + g.Intn(8)))
+						if !labelAfterRebase {
+							e.Label("sub")
+						}
+						e.NOP()
+						if rebase {
+							e.SetBase(bank | uint32(0xC000+g.Intn(0x1000)))
+						}
+						if labelAfterRebase {
+							e.Label("sub")
+						}
+						e.NOP()
+					})
+					if pan != nil {
+						continue
+					}
+					addr, _ := e.GetLabel("sub")
+					arg := addr
+					c := hcall{Op: "ins", M: m, Arg: arg}
+					want := c.bytes()
+					n0 := e.Len()
+					if vf.Try(func() {
+						callMethod(e, m, arg, "")
+						if twice {
+							callMethod(e, m, arg, "")
+						}
+						e.EmitBytes(g.Bytes(4))
+					}) != nil {
+						continue
+					}
+					n++
+					if got := e.Bytes()[n0 : n0+len(want)]; string(got) != string(want) {
+						r.Fail("encoding-with-label-address-operand:"+m.Name, fmt.Sprintf("%s($%x) (the address of a defined label) appended % x, its encoding is % x", m.Name, arg, got, want), nil)
+						continue
+					}
+					pre := append([]byte(nil), e.Bytes()...)
+					var err error
+					if p := vf.Try(func() { err = e.Finalize() }); p != nil || err != nil || string(e.Bytes()) != string(pre) {
+						at := -1
+						if p == nil && err == nil {
+							at = firstDiff(e.Bytes(), pre)
+						}
+						r.Fail("finalize-without-references:"+m.Name, fmt.Sprintf("listing=%v second SetBase=%v: after %s($%x) (operand = address of label \"sub\"; no label-taking method called) Finalize: panic=%v err=%v, first changed byte %d", listing, rebase, m.Name, arg, p, err, at), nil)
+					}
+				}
+			}
+			r.Eval(n)
+			r.CellN("label-address-operand", n)
+		})
+	}
 	if r.Phase("in-context") {
 		// the same law inside whole call histories: what a call appends must not depend on what was
 		// emitted before it (previous bytes, labels, data blocks, width changes)
